@@ -5,6 +5,7 @@ package main
 
 import (
 	"bytes"
+	"encoding/json"
 	"fmt"
 	"math/rand"
 	"sort"
@@ -239,140 +240,151 @@ func oidText(ix []int) string {
 	return strings.Join(p, ",")
 }
 
+func init() {
+	gSummarisers["c14"] = func(raw json.RawMessage, modelOK bool, scratch string) gSummary {
+		var cs gCase
+		if err := json.Unmarshal(raw, &cs); err != nil {
+			return gSummary{Text: string(raw), Fails: []lib.Failure{{Kind: "tie", Key: "harness/job", What: err.Error()}}}
+		}
+		return c14Summarise(gExec(&cs), modelOK)
+	}
+}
+
+func c14Summarise(run *gRun, modelOK bool) gSummary {
+	var s gSummary
+	cs := run.Case
+	p := cs.Prog
+	nrw := 0
+	for _, o := range p.Ops {
+		if o.K != "close" {
+			nrw++
+		}
+	}
+	s.Text = p.text() + fmt.Sprint(cs.Order, cs.Mode, cs.Seed)
+	s.Nontrivial = true
+	hist := func(k string) { s.Hist = append(s.Hist, k) }
+	hist("server=" + p.Server)
+	hist(fmt.Sprintf("rw-depth=%02d", nrw))
+	hist(fmt.Sprintf("handles=%d", len(p.Handles)))
+	hist("mode=" + cs.Mode + "/" + cs.Tag)
+	for _, h := range p.Handles {
+		hist("handle-kind=" + h.Kind)
+	}
+	for _, o := range p.Ops {
+		hist("request=" + o.K)
+	}
+	v := c14Check(run)
+	s.Fails = v.fails
+	if run.Fault != nil || len(v.observed) != len(p.Ops) {
+		return s
+	}
+	hist(fmt.Sprintf("max-earlier-calls-in-flight-at-close-entry=%d", v.inflight))
+	if cs.Mode == "gated" && nrw >= 5 && nrw <= 10 && len(p.Handles) >= 2 {
+		s.Sample = map[string]any{"program": p.text(), "order_in_which_gates_were_opened": cs.Order, "observed_completion_order_of_all_calls": v.observed, "model_trace": run.Trace}
+	}
+	// the schedule as a model trace
+	trace := run.Trace
+	if cs.Mode == "gated" {
+		// the forced order must be what the log shows (Close calls return on their own, in between)
+		if fmt.Sprint(v.observed) != fmt.Sprint(run.Handled) {
+			s.Fails = append(s.Fails, lib.Failure{Kind: "oracle", Key: "close/completion-order-differs/" + p.Server, What: "calls returned in an order different from the one the pipeline allows for the gates opened",
+				Input: cs, Expected: run.Handled, Actual: v.observed})
+			return s
+		}
+	} else {
+		t, _, err := c14ReplayTrace(run, v.observed)
+		if err != nil {
+			s.Fails = append(s.Fails, lib.Failure{Kind: "oracle", Key: "close/impossible-completion-order/" + p.Server, What: err.Error(), Input: cs, Actual: v.observed})
+			return s
+		}
+		trace = t
+	}
+	if modelOK {
+		s.Lines = []string{"c14.check " + c02Cfg + " " + trace, "c14.handled " + c02Cfg + " " + trace}
+		s.Impl = []string{"ok", oidText(v.observed)}
+	}
+	return s
+}
+
 func checkC14(c *lib.Ctx) {
 	r := c.R
-	r.Rule = "pipelines of d = 1…24 READ/WRITE requests on h = 1…4 handles (read-only, write-only and read-write opens; layouts: all CLOSEs at the end, handle by handle, shuffled) followed by the CLOSEs without waiting for any reply, on both servers. Gated cases: every ReadAt/WriteAt is held; after the expected calls have started and a grace period the harness asserts that no Close was entered, then lets the calls return in a chosen order (all feasible orders for d <= 4 (quick) / 6 (thorough), PRNG orders: uniform, fifo, lifo, earliest-held-longest). Sleep cases: nothing is held, every call (Close too) sleeps a PRNG time below 1.5 ms. Oracles on the global start/finish log: 0 earlier reads/writes in flight at every Close entry, none starts later, every request succeeds, final contents. non-trivial = at least one read/write precedes a CLOSE (always); distinct by (server, program, order or sleep seed)"
+	r.Rule = "pipelines of d = 1…24 READ/WRITE requests on h = 1…4 handles (read-only, write-only and read-write opens; layouts: all CLOSEs at the end, handle by handle, shuffled) followed by the CLOSEs without waiting for any reply, on both servers. Gated cases: every ReadAt/WriteAt is held; after the expected calls have started and a grace period of 25 ms the harness asserts that no Close was entered, then lets the calls return in a chosen order (all feasible orders for d <= 4 (quick) / 6 (thorough), PRNG orders: uniform, fifo, lifo, earliest-held-longest). Unforced cases: nothing is held, every call (Close too) sleeps a PRNG time below 1.5 ms, or not at all. Oracles on the global start/finish log: 0 earlier reads/writes in flight at every Close entry, none starts later, every request succeeds, final contents. non-trivial = at least one read/write precedes a CLOSE (always); distinct by (server, program, order or sleep seed)"
 	thorough := c.Tier == "thorough"
 	modelOK := gProbeModel(c, "c14.check "+c02Cfg+" -")
 	if !modelOK {
 		r.Skip("model comparison skipped: driver ops `c14.check` / `c14.handled` (lean/Sftp/Driver/C02.lean) are not served by the driver binary given with --model")
 	}
+	describe := func(raw json.RawMessage) (string, any) {
+		var cs gCase
+		json.Unmarshal(raw, &cs)
+		return cs.Prog.Server, cs
+	}
+	var jobs []json.RawMessage
 	if c.Replay != "" {
 		var cs gCase
 		if err := lib.ReadReplay(c.Replay, &cs); err != nil {
 			r.Fail(lib.Failure{Kind: "tie", Key: "replay", What: err.Error()})
 			return
 		}
-		run := gExec(&cs)
-		r.Case(cs.Prog.text(), true)
-		v := c14Check(run)
-		for _, f := range v.fails {
-			r.Fail(f)
-		}
-		r.Sample(map[string]any{"case": cs, "observed_completion_order": v.observed})
-		return
-	}
-
-	var cases []*gCase
-	grace := 25
-	styles := []string{"uniform", "fifo", "lifo", "first-last", "uniform", "uniform"}
-	layouts := []string{"tail", "grouped", "mixed"}
-	for _, server := range []string{"rs", "os"} {
-		// every (h, d)
-		reps := 1
-		if thorough {
-			reps = 6
-		}
-		for h := 1; h <= 4; h++ {
-			for d := 1; d <= 24; d++ {
-				for li, layout := range layouts {
-					if !thorough && li > 0 && d%3 != h%3 {
-						continue
-					}
-					for k := 0; k < reps; k++ {
-						p := c14Program(c.Rand, server, h, d, layout)
-						cases = append(cases, &gCase{Prog: p, Mode: "gated", Order: c02RandomOrder(p, c.Rand, styles[(k+d+h)%len(styles)]), Grace: grace, Tag: layout})
+		jobs = append(jobs, gJSON(cs))
+	} else {
+		grace := 25
+		styles := []string{"uniform", "fifo", "lifo", "first-last", "uniform", "uniform"}
+		layouts := []string{"tail", "grouped", "mixed"}
+		for _, server := range []string{"rs", "os"} {
+			// every (h, d)
+			reps := 2
+			if thorough {
+				reps = 12
+			}
+			for h := 1; h <= 4; h++ {
+				for d := 1; d <= 24; d++ {
+					for _, layout := range layouts {
+						for k := 0; k < reps; k++ {
+							p := c14Program(c.Rand, server, h, d, layout)
+							jobs = append(jobs, gJSON(gCase{Prog: p, Mode: "gated", Order: c02RandomOrder(p, c.Rand, styles[(k+d+h)%len(styles)]), Grace: grace, Tag: layout}))
+						}
 					}
 				}
 			}
-		}
-		// all orders of small pipelines
-		maxD := 4
-		if thorough {
-			maxD = 6
-		}
-		for d := 2; d <= maxD; d++ {
-			for h := 1; h <= 2; h++ {
-				for _, layout := range layouts {
-					if !thorough && layout == "grouped" {
-						continue
-					}
-					p := c14Program(c.Rand, server, h, d, layout)
-					ords, _ := c02Orders(p, 720)
-					for _, o := range ords {
-						cases = append(cases, &gCase{Prog: p, Mode: "gated", Order: o, Tag: "all-orders/" + layout})
+			// all orders of small pipelines
+			maxD, progs := 4, 2
+			if thorough {
+				maxD, progs = 6, 4
+			}
+			for d := 2; d <= maxD; d++ {
+				for h := 1; h <= 3; h++ {
+					for _, layout := range layouts {
+						for k := 0; k < progs; k++ {
+							if d == 6 && k > 0 {
+								continue
+							}
+							p := c14Program(c.Rand, server, h, d, layout)
+							ords, _ := c02Orders(p, 720)
+							for _, o := range ords {
+								jobs = append(jobs, gJSON(gCase{Prog: p, Mode: "gated", Order: o, Tag: "all-orders/" + layout}))
+							}
+						}
 					}
 				}
 			}
-		}
-		// relative speeds left to the scheduler, with random handler durations
-		nSleep := 150
-		if thorough {
-			nSleep = 3000
-		}
-		for k := 0; k < nSleep; k++ {
-			p := c14Program(c.Rand, server, 1+c.Rand.Intn(4), 1+c.Rand.Intn(24), layouts[c.Rand.Intn(3)])
-			mode := "sleep"
-			if k%5 == 4 {
-				mode = "free"
+			// relative speeds left to the scheduler, with random handler durations
+			nSleep := 600
+			if thorough {
+				nSleep = 12000
 			}
-			cases = append(cases, &gCase{Prog: p, Mode: mode, Seed: c.Rand.Int63(), Tag: "unforced"})
+			for k := 0; k < nSleep; k++ {
+				p := c14Program(c.Rand, server, 1+c.Rand.Intn(4), 1+c.Rand.Intn(24), layouts[c.Rand.Intn(3)])
+				mode := "sleep"
+				if k%5 == 4 {
+					mode = "free"
+				}
+				jobs = append(jobs, gJSON(gCase{Prog: p, Mode: mode, Seed: c.Rand.Int63(), Tag: "unforced"}))
+			}
 		}
 	}
-
-	var lines, impl []string
-	gParallel(cases, 12, func(run *gRun) {
-		cs := run.Case
-		p := cs.Prog
-		nrw := 0
-		for _, o := range p.Ops {
-			if o.K != "close" {
-				nrw++
-			}
-		}
-		r.Case(p.text()+fmt.Sprint(cs.Order, cs.Mode, cs.Seed), true)
-		r.Hist("server=" + p.Server)
-		r.Hist(fmt.Sprintf("rw-depth=%02d", nrw))
-		r.Hist(fmt.Sprintf("handles=%d", len(p.Handles)))
-		r.Hist("mode=" + cs.Mode + "/" + cs.Tag)
-		for _, h := range p.Handles {
-			r.Hist("handle-kind=" + h.Kind)
-		}
-		for _, o := range p.Ops {
-			r.Hist("request=" + o.K)
-		}
-		v := c14Check(run)
-		for _, f := range v.fails {
-			r.Fail(f)
-		}
-		if run.Fault != nil || len(v.observed) != len(p.Ops) {
-			return
-		}
-		if len(r.Samples) < 3 && cs.Mode == "gated" && nrw >= 5 && len(p.Handles) >= 2 {
-			r.Sample(map[string]any{"program": p.text(), "order_in_which_gates_were_opened": cs.Order, "observed_completion_order_of_all_calls": v.observed, "model_trace": run.Trace})
-		}
-		// the schedule as a model trace
-		trace := run.Trace
-		if cs.Mode == "gated" {
-			// the forced order must be what the log shows (Close calls return on their own, in between)
-			if fmt.Sprint(v.observed) != fmt.Sprint(run.Handled) {
-				r.Fail(lib.Failure{Kind: "oracle", Key: "close/completion-order-differs/" + p.Server, What: "calls returned in an order different from the one the pipeline allows for the gates opened",
-					Input: cs, Expected: run.Handled, Actual: v.observed})
-				return
-			}
-		} else {
-			t, _, err := c14ReplayTrace(run, v.observed)
-			if err != nil {
-				r.Fail(lib.Failure{Kind: "oracle", Key: "close/impossible-completion-order/" + p.Server, What: err.Error(), Input: cs, Actual: v.observed})
-				return
-			}
-			trace = t
-		}
-		if modelOK {
-			lines = append(lines, "c14.check "+c02Cfg+" "+trace, "c14.handled "+c02Cfg+" "+trace)
-			impl = append(impl, "ok", oidText(v.observed))
-		}
-	})
+	sums := gRunBatches(c, "c14", jobs, 2000, modelOK, describe)
+	lines, impl := gMerge(r, sums, 3)
 	if modelOK {
 		c.Compare("c14", lines, impl)
 	}
